@@ -26,4 +26,6 @@ StepsF44  == [F |-> 2, w1 |-> 4, w2 |-> 4]
 StepsQ    == [q |-> 6, w1 |-> 5]
 StepsR    == [a |-> 5, b |-> 5, r |-> 2]
 StepsD    == [d |-> 2, w |-> 5]
+StepsC    == [F |-> 4, w1 |-> 5]
+StepsW6   == [w1 |-> 5, w2 |-> 6]
 =============================================================================
